@@ -11,7 +11,7 @@ meta = json.load(open(f'{src}/meta.json'))
 meta['property'] = prop
 conf = [l.strip() for l in open('/tmp/mutout/confirm.log') if l.strip()]
 for i, l in enumerate(conf):
-    if l.startswith(f'ID={mid} '):
+    if l.startswith(f'ID={mid} ') and 'existing suite' in l:
         meta['confirmed_by_me'] = {'cmd': f'tools/confirm_seed.sh {mid} (scratch worktree of /repo HEAD: apply patch, cargo test --offline --no-fail-fast; revert, cargo test --test seeded_demo)',
                                    'result': conf[i:i + 3]}
 meta['caught_by'] = caught
